@@ -11,6 +11,7 @@ import (
 	"sync"
 	"time"
 
+	"github.com/IrineSistiana/mosproxy/app/router"
 	"github.com/IrineSistiana/mosproxy/internal/zzverif/vtrace"
 	"github.com/miekg/dns"
 )
@@ -548,4 +549,54 @@ func modeC04(thorough bool) {
 		time.Sleep(25 * time.Millisecond)
 	}
 	time.Sleep(300 * time.Millisecond)
+}
+
+// ---------------------------------------------------------------- C15 live: refusals on the wire, isolation, charged address
+func modeC15Live() {
+	lim := router.LimiterConfig{}
+	lim.Client.Limit, lim.Client.Burst = 20, 30
+	in, err := newInst("c15live", instOpts{
+		listeners: []string{"udp", "tcp", "gnet", "tls", "http", "quic"},
+		upstreams: map[string]string{"u1": "udp"},
+		rules:     []ruleSpec{{Forward: "u1"}},
+		limiter:   lim,
+		clients:   []string{"127.0.1.1", "127.0.2.1", "127.0.3.1"},
+	})
+	if err != nil {
+		panic(err)
+	}
+	defer in.close()
+	stop := make(chan struct{})
+	var wg sync.WaitGroup
+	// client B stays within its own budget on every listener kind (one query every 700 ms, cost <= 20)
+	wg.Add(1)
+	go func() {
+		defer wg.Done()
+		for k := 0; ; k++ {
+			select {
+			case <-stop:
+				return
+			default:
+			}
+			lst := []string{"udp", "tcp", "http", "gnet"}[k%4]
+			q := mkq(uniq() + ".r0t60d0.quiet.test.")
+			in.send(lst, "127.0.2.1", q, 3*time.Second, nil)
+			time.Sleep(700 * time.Millisecond)
+		}
+	}()
+	// client A floods, one listener kind after the other
+	for _, lst := range []string{"udp", "tcp", "http", "gnet", "tls", "quic"} {
+		par(6, func(w int) {
+			for k := 0; k < 12; k++ {
+				q := mkq(uniq() + ".r0t60d0.flood.test.")
+				q.id = uint16(9000 + w*50 + k)
+				in.sendMay(lst, "127.0.1.1", q, 2*time.Second)
+			}
+		})
+		time.Sleep(300 * time.Millisecond)
+	}
+	// a third subnet opens QUIC / TLS connections while A's connection budget is exhausted
+	in.send("quic", "127.0.3.1", mkq(uniq()+".r0t60d0.third.test."), 3*time.Second, nil)
+	close(stop)
+	wg.Wait()
 }
